@@ -470,6 +470,14 @@ def seq_nth(ex, state, t, i, depth=0):
                 if ex.prove_quick(state, i < simp(off + lc)):
                     return seq_nth(ex, state, c, simp(i - off), depth + 1)
                 if not ex.prove_quick(state, i >= simp(off + lc)):
+                    # undecided which side of a two-part concatenation (xs ++ [x], the shape list.append builds) the
+                    # index falls on: an explicit case distinction instead of nth over a concatenation
+                    kids = t.children()
+                    pos = [j for j, c2 in enumerate(kids) if c2.eq(c)][0]
+                    last = kids[-1]
+                    if pos == len(kids) - 2 and z3.is_app(last) and last.decl().kind() == z3.Z3_OP_SEQ_UNIT:
+                        return z3.If(i < simp(off + lc), seq_nth(ex, state, c, simp(i - off), depth + 1),
+                                     seq_nth(ex, state, last, simp(i - off - lc), depth + 1))
                     break
                 off = simp(off + lc)
     return t[i]
@@ -567,7 +575,7 @@ def get_item(ex, state, v, k):
             n = z3.Length(o.seq)
             ex.raise_if(state, z3.Or(i >= n, i < -n), "IndexError")
             j = ex.index_term(state, i, n)
-            return value_of_elem(o.elem, o.seq[j])
+            return value_of_elem(o.elem, seq_nth(ex, state, o.seq, j))
         if o.kind in ("dict", "udict"):
             from . import models
             return models.dict_getitem(ex, state, v, k)
